@@ -47,6 +47,7 @@ def cmdMux (ws : List String) : String :=
       if w.startsWith "H" then ["T", "r" ++ (w.drop 1).toString]
       else if w.startsWith "K" then ["C", "T", "r" ++ (w.drop 1).toString]
       else if w.startsWith "N" then ["r" ++ (w.drop 1).toString, "w" ++ (w.drop 1).toString, "T"]
+      else if w.startsWith "y" then []   -- a call parked inside Write: not a step of the model
       else if w.startsWith "p:" then ["T"]   -- the stream ends inside a frame: a reader termination
       else [w])
     match evs.mapM parseEv with
@@ -55,7 +56,7 @@ def cmdMux (ws : List String) : String :=
       let ks := kinds.toList
       let s := run (init (ks.map (· == 'O'))) evs  -- kinds G and N (raw reply) behave alike
       let per := (ks.zip s.calls).map (fun (k, r) =>
-        if k == 'B' then "ret=" ++ outStrMux r.ret
+        if k == 'B' || k == 'D' then "ret=" ++ outStrMux r.ret
         else s!"{r.signals}:{outStrMux r.outcome}")
       let chan := if s.chan.isEmpty then "-" else ",".intercalate (s.chan.map (fun f => toString f.tag))
       " ".intercalate per ++ s!" | sd={boolStr s.shutdown} chan={chan}"
